@@ -4,7 +4,7 @@
 # 2. applies the change to /repo, runs the given checks (quick tier), and undoes it straight afterwards
 set -u
 OUT=$1; SID=$2; shift 2
-export GOFLAGS=-mod=mod GOPROXY=off GOSUMDB=off GOTOOLCHAIN=local
+export GOFLAGS=-mod=mod GOPROXY=off GOSUMDB=off GOTOOLCHAIN=local VERIF_NO_EVIDENCE=1
 W=/tmp/mut/confirm-$SID
 git -C /repo worktree remove --force $W 2>/dev/null; rm -rf $W
 git -C /repo worktree add -q --detach $W HEAD || exit 2
